@@ -71,11 +71,23 @@ def main():
 
     if a.digests is not None:
         core.import_scoda()
-        out = core.worker_chunk(prop, a.tier, seed, a.start, a.start + a.digests, 0, digests_only=True)
-        for i, d in enumerate(out["digests"]):
+        core.get_engine(prop)
+        if a.workers and a.workers > 1:
+            import multiprocessing
+            from concurrent.futures import ProcessPoolExecutor
+            chunks = [(lo, min(a.start + a.digests, lo + 50)) for lo in range(a.start, a.start + a.digests, 50)]
+            with ProcessPoolExecutor(max_workers=a.workers, mp_context=multiprocessing.get_context("fork")) as ex:
+                outs = list(ex.map(core.worker_chunk, [prop] * len(chunks), [a.tier] * len(chunks), [seed] * len(chunks),
+                                   [c[0] for c in chunks], [c[1] for c in chunks], [0] * len(chunks), [True] * len(chunks)))
+            digests = [d for o in outs for d in o["digests"]]
+            harness = [h for o in outs for h in o["harness"]]
+        else:
+            out = core.worker_chunk(prop, a.tier, seed, a.start, a.start + a.digests, 0, digests_only=True)
+            digests, harness = out["digests"], out["harness"]
+        for i, d in enumerate(digests):
             print(a.start + i, d)
-        if out["harness"]:
-            print("HARNESS", json.dumps(out["harness"][:3]))
+        if harness:
+            print("HARNESS", json.dumps(harness[:3]))
             return core.EXIT_HARNESS
         return core.EXIT_OK
 
